@@ -82,14 +82,14 @@ pub fn main(dir: &str, seed: u64) -> (i32, Value) {
         fed += sz as u64;
         let back = std::fs::read(&path).expect("read back");
         for v in 0..6u8 {
-            // every other file is hashed on a thread with a small stack (192 KiB): the helpers must not need megabytes of stack
+            // every other file is hashed on a thread with a small stack (128 KiB): the helpers must not need megabytes of stack
             let small_stack = i % 2 == 1;
             let (got, want) = if small_stack {
                 let p2 = path.clone();
                 let b2 = &back;
                 std::thread::scope(|sc| {
                     std::thread::Builder::new()
-                        .stack_size(192 * 1024)
+                        .stack_size(128 * 1024)
                         .spawn_scoped(sc, move || hash_file_both(v, &p2, b2))
                         .expect("spawn small-stack thread")
                         .join()
@@ -157,10 +157,13 @@ pub fn main(dir: &str, seed: u64) -> (i32, Value) {
         std::fs::write(&target, &data).expect("write");
         let want = render::<tlsh::Tlsh>(&tlsh::hash_buf(&data));
         let want_big = render::<tlsh::Tlsh>(&tlsh::hash_buf(&big));
-        let show = |p: &std::path::Path| match tlsh::hash_file(p) {
-            Ok(h) => h.to_string(),
-            Err(tlsh::GeneratorOrIOError::GeneratorError(e)) => format!("Err({e:?})"),
-            Err(tlsh::GeneratorOrIOError::IOError(e)) => format!("IOError({:?})", e.kind()),
+        let show = |p: &std::path::Path| {
+            crate::framework::guarded(|| match tlsh::hash_file(p) {
+                Ok(h) => h.to_string(),
+                Err(tlsh::GeneratorOrIOError::GeneratorError(e)) => format!("Err({e:?})"),
+                Err(tlsh::GeneratorOrIOError::IOError(e)) => format!("IOError({:?})", e.kind()),
+            })
+            .unwrap_or_else(|p| format!("PANIC: {p}"))
         };
         let mut cases: Vec<(String, std::path::PathBuf, String)> = Vec::new();
         // symlink, symlink to symlink, path through `..` and `.` components, doubled separators
@@ -180,6 +183,22 @@ pub fn main(dir: &str, seed: u64) -> (i32, Value) {
             cases.push(("unlinked file through /proc/self/fd/N".into(), std::path::PathBuf::from(format!("/proc/self/fd/{}", keep.as_raw_fd())), want_big.clone()));
             cases.push(("unlinked file through /dev/fd/N".into(), std::path::PathBuf::from(format!("/dev/fd/{}", keep.as_raw_fd())), want_big.clone()));
         }
+        // a file on which ANOTHER open handle holds an exclusive advisory lock: advisory locks do not stop readers
+        let locked = base.join("locked.bin");
+        std::fs::write(&locked, &data).expect("write");
+        let lock_holder = std::fs::OpenOptions::new().read(true).write(true).open(&locked).expect("open");
+        if lock_holder.try_lock().is_ok() {
+            cases.push(("file exclusively flock()ed through another handle".into(), locked.clone(), want.clone()));
+        }
+        // a file somebody else has open for appending, and a read-only (0o400) file
+        let _appender = std::fs::OpenOptions::new().append(true).open(&target);
+        let ro = base.join("readonly.bin");
+        std::fs::write(&ro, &data).expect("write");
+        {
+            use std::os::unix::fs::PermissionsExt;
+            let _ = std::fs::set_permissions(&ro, std::fs::Permissions::from_mode(0o400));
+        }
+        cases.push(("read-only file (mode 0400)".into(), ro, want.clone()));
         for (what, p, want) in &cases {
             // the platform's own view decides whether the case exists here (e.g. no /dev/fd in a minimal container)
             match std::fs::read(p) {
@@ -195,6 +214,7 @@ pub fn main(dir: &str, seed: u64) -> (i32, Value) {
             }
         }
         drop(keep);
+        drop(lock_holder);
         // a pipe (not seekable, no size) reached through its descriptor, fed by another thread in odd-sized writes
         if let (Ok((rd, mut wr)), true) = (std::io::pipe(), std::path::Path::new("/proc/self/fd/0").parent().map(|d| d.is_dir()).unwrap_or(false)) {
             use std::os::fd::AsRawFd;
@@ -234,6 +254,23 @@ pub fn main(dir: &str, seed: u64) -> (i32, Value) {
                 if got != want {
                     viol.push(json!({"index": 302, "class": "hash-file-differs-from-contents", "detail": format!("relative path `{rel}`: hash_file gives {got}, hash_buf(contents) gives {want}"),
                         "history": {"path_kind": "relative", "path": rel}, "engine": "hashfile"}));
+                }
+            }
+            let _ = std::env::set_current_dir("/");
+        }
+        // the process's current directory has been removed (a daemon whose start directory was cleaned up): a missing
+        // relative path is still an I/O error, an absolute path still works
+        let gone = base.join("gone");
+        if std::fs::create_dir_all(&gone).is_ok() && std::env::set_current_dir(&gone).is_ok() && std::fs::remove_dir(&gone).is_ok() {
+            for (what, p, want_io) in [("missing relative path while the current directory is gone", std::path::PathBuf::from("no-such-file.bin"), true),
+                                       ("absolute path while the current directory is gone", target.clone(), false)] {
+                checks += 1;
+                kinds_hit += 1;
+                let got = show(&p);
+                let ok = if want_io { got.starts_with("IOError(") } else { got == want };
+                if !ok {
+                    viol.push(json!({"index": 305, "class": if got.starts_with("PANIC") { "panic:hash_file" } else { "hash-file-differs-from-contents" },
+                        "detail": format!("{what}: hash_file gives {got}, want {}", if want_io { "an I/O error".to_string() } else { want.clone() }), "history": {"path_kind": what}, "engine": "hashfile"}));
                 }
             }
             let _ = std::env::set_current_dir("/");
